@@ -1,5 +1,7 @@
 """C12 All function representations answer every protocol query alike and correctly."""
+import json
 import multiprocessing
+import pathlib
 import time
 
 from framework.checklib import CorrResult
@@ -7,6 +9,7 @@ from framework import coqrun
 from harness import funccorr as fc
 
 ID = 'C12'
+CORPUS = pathlib.Path(__file__).resolve().parent.parent / 'harness' / 'corpus' / 'C12'
 TRANSLATORS = []
 PROPERTY_FILE = 'Properties/C12.v'
 THEOREMS = ['C12_product_is_canonical_order', 'C12_fixed_sum_iterator', 'C12_fixed_sum_iterator_no_negations',
@@ -18,6 +21,7 @@ THEOREMS = ['C12_product_is_canonical_order', 'C12_fixed_sum_iterator', 'C12_fix
             'C12_get_significant_inputs_of', 'C12_find_negations_to_make_symmetric',
             'C12_define_python_model', 'C12_define_truth_table_model',
             'C12_canonical_index_to_input', 'C12_from_int_unary_func', 'C12_from_int_binary_func',
+            'C12_pyfunction_constructor', 'C12_from_int_unary_func_sizes', 'C12_from_int_binary_func_sizes',
             'C12_memoised_circuit_queries', 'C12_example_represented']
 PARTIAL = {}
 LEVEL_TEXT = ('for every Boolean function f with arities n, m >= 1 and every query of the protocol with index arguments '
@@ -97,7 +101,8 @@ def run_all(cases):
 
 def build_cases(ctx):
     rng = ctx.rng
-    cases = fc.func_cases(rng, ctx.n(3000, 0), not ctx.quick)
+    cases = [json.loads(f.read_text())['case'] for f in sorted(CORPUS.glob('*.json'))]   # past failing inputs first
+    cases += fc.func_cases(rng, ctx.n(3000, 0), not ctx.quick)
     cases += fc.misc_cases(rng, ctx.quick)
     for n, m, k in ((4, 1, ctx.n(40, 400)), (4, 2, ctx.n(40, 400)), (5, 1, ctx.n(6, 60))):
         for _ in range(k):
